@@ -512,23 +512,79 @@ pub fn execute(plan: &ExPlan) -> ExRun {
 }
 
 /// Runs the plan and judges it against the reference model.
-pub fn run_and_judge(plan: &ExPlan, want_trace: bool) -> RunOut {
-    if ack_carries_data(plan) {
-        let a = run_and_judge_with(plan, want_trace, true);
-        if a.violations.is_empty() {
-            return a;
-        }
-        let b = run_and_judge_with(plan, want_trace, false);
-        if b.violations.is_empty() {
-            return b;
-        }
-        return a;
+/// Offsets of the terminal stream in front of which a paced terminal stalls for a second or more.
+/// The sequences have no timer, so a stall changes nothing - but a library that gives a started
+/// exchange up after some time of silence (an inter-character time-out, say) breaks no property
+/// either: at each such offset "one error, nothing more" is an acceptable second reading.
+pub fn long_stall_offsets(plan: &ExPlan) -> Vec<u32> {
+    if plan.mode != Mode::Paced || plan.paced_gaps_ms.is_empty() {
+        return vec![];
     }
-    run_and_judge_with(plan, want_trace, false)
+    let len = plan.stream().len();
+    let mut cuts: Vec<usize> = plan.paced_cuts.iter().map(|c| (*c as usize).min(len)).collect();
+    cuts.sort();
+    cuts.dedup();
+    // segment k starts at starts[k]
+    let mut starts = vec![0usize];
+    for c in cuts {
+        if c > *starts.last().unwrap() && c < len {
+            starts.push(c);
+        }
+    }
+    let mut out = vec![];
+    for (k, st) in starts.iter().enumerate() {
+        let gap = plan.paced_gaps_ms.get(k).or(plan.paced_gaps_ms.last()).copied().unwrap_or(0);
+        if gap >= 1000 {
+            out.push(*st as u32);
+        }
+    }
+    out
 }
 
-fn run_and_judge_with(plan: &ExPlan, want_trace: bool, ack_with_data_is_positive: bool) -> RunOut {
+pub fn run_and_judge(plan: &ExPlan, want_trace: bool) -> RunOut {
+    let mut readings: Vec<(bool, Option<u32>)> = vec![(false, None)];
+    if ack_carries_data(plan) {
+        readings.insert(0, (true, None));
+    }
+    for off in long_stall_offsets(plan) {
+        if plan.cut.map(|c| c.0 > off).unwrap_or(true) {
+            readings.push((false, Some(off)));
+            if ack_carries_data(plan) {
+                readings.push((true, Some(off)));
+            }
+        }
+    }
+    let mut first: Option<RunOut> = None;
+    for (ack_pos, gave_up) in readings {
+        let mut r = run_and_judge_with(plan, want_trace, ack_pos, gave_up);
+        if r.violations.is_empty() {
+            if gave_up.is_some() {
+                r.stats.hit("probe.gave_up_during_a_stall");
+            }
+            return r;
+        }
+        if first.is_none() {
+            first = Some(r);
+        }
+    }
+    first.unwrap()
+}
+
+fn run_and_judge_with(plan: &ExPlan, want_trace: bool, ack_with_data_is_positive: bool, gave_up_at: Option<u32>) -> RunOut {
     let mut out = RunOut::new();
+    // the prediction for "the client gave the exchange up when the terminal stalled at this offset"
+    // is that of a stream that ends there; the execution is that of the plan as it is
+    let as_planned = plan;
+    let assumed;
+    let plan = match gave_up_at {
+        Some(off) => {
+            let mut p2 = plan.clone();
+            p2.cut = Some((off, CloseKind::Eof));
+            assumed = p2;
+            &assumed
+        }
+        None => plan,
+    };
     let info = seqs::info(plan.seq);
     let sigbase = if plan.fault.is_empty() {
         format!("{}", info.name)
@@ -553,7 +609,7 @@ fn run_and_judge_with(plan: &ExPlan, want_trace: bool, ack_with_data_is_positive
             return out;
         }
     };
-    let run = execute(plan);
+    let run = execute(as_planned);
     let log = run.log.lock().unwrap();
     out.trace_hash = log.hash();
     if want_trace {
